@@ -1,1 +1,3 @@
 import PQ.Props.C17
+import PQ.Props.C07
+import PQ.Lemmas.BitpackNat
